@@ -28,7 +28,14 @@ def main():
         return mod.replay(a.replay)
     report = common.Report(prop, a.tier)
     only = a.only.split(',') if a.only else None
+    os.environ['VERIF_TIER_EFFECTIVE'] = a.tier
     mod.check(report, a.tier, only)
+    report.assumptions += [
+        'bounded / modelled: every result holds for all values within the bounds listed per obligation and under the listed contract models; nothing is claimed outside them',
+        'mirsym (E2) counterexamples are solver assignments over the current MIR written to replays/*.json; they are not re-executed natively (Kani counterexamples of C15 are: replay/wire_native.rs)',
+        'the MIR/Kani encodings are regenerated from the current /repo working tree (cache key = sha256 of all source files)']
+    import e2 as _e2
+    report.extra['cvc5_differential'] = dict(_e2.DIFF_STATS)
     return report.finish()
 
 
